@@ -59,7 +59,7 @@ impl shuttle::current::Taggable for MyTag {}
 
 /// The body: observes the initial world at entry, then dirties everything it can.
 #[allow(deprecated)]
-fn body(variant: usize) {
+pub fn body(variant: usize) {
     use shuttle::current;
     let me: usize = current::me().into();
     let clock = current::clock();
